@@ -21,6 +21,8 @@ RULE = ("grammar-generated task programs (profiles %s; trees and DAGs of tasks, 
         "least 2 tasks and 1 scheduler flush; distinct by hash of (configuration, programs)" % (", ".join(p for p, _ in MIX)))
 LEAN_MODULES = LEAN_MODULES + ctxhist.WITH_LEAN_MODULES
 THEOREMS = THEOREMS + ["AsynqModel.Contexts." + n for n in ctxhist.WITH_THEOREMS]
+# audited with the rest, but true by construction of the with-block model and not part of the claim (see ctxhist.WITH_BY_CONSTRUCTION)
+BY_CONSTRUCTION = ["AsynqModel.Contexts." + n for n in ctxhist.WITH_BY_CONSTRUCTION]
 RULE += "; plus " + ctxhist.WITH_RULE
 RULE += "; plus families hookenter, composite (Drv/Families6c.lean) crossthread and reawait (Drv/Families6t.lean), judged by direct expectation"
 TRUSTED = cc.TRUSTED_CORE + ["family ctxwith: hand-written Lean model AsynqModel.Contexts.runW (Lib/ContextsWith.lean: with-blocks of a "
